@@ -2,6 +2,7 @@ import DryocVerif.Proofs.Poly1305Main
 import DryocVerif.Model.Utils
 import DryocVerif.Proofs.Blake2bMain
 import DryocVerif.Proofs.Core
+import DryocVerif.Proofs.GenPoly1305
 /-
 C07 — hash, MAC and core primitives equal their specifications on every input.
 Property theorems only; helper lemmas live in `DryocVerif/Proofs`.
@@ -274,5 +275,45 @@ theorem hmac_init_long_key_panics (H : Bytes → Bytes) (key : Bytes) (hk : key.
 theorem hmac_verify_ok_iff (key msg mac : Bytes) (hk : key.length = 32) :
     Model.Core.hmacVerify Spec.Sha512.sha512 mac msg key = .ok () ↔ mac = Spec.Hmac.hmacSha512256 key msg :=
   Proofs.Core.hmacVerify_ok_iff key msg mac (by omega)
+
+/-! ### Tie to the source: the machine-translated kernels (`DryocVerif/Gen/*.lean`, regenerated from `/repo/src` by
+`tools/rs2lean.py` on every run) equal the hand-written model.  An edit of the Rust arithmetic changes the generated
+definition, and these theorems are re-checked against what the code says now. -/
+
+/-- `utils.rs::load_u64_le` as translated = the little-endian value of the first 8 bytes, for every slice -/
+theorem translated_load_u64_le (b : Bytes) : Gen.Utils.load_u64_le b = le (b.take 8) :=
+  Proofs.GenUtils.load_u64_le_eq_le b
+
+theorem translated_load_u32_le (b : Bytes) : Gen.Utils.load_u32_le b = le (b.take 4) :=
+  Proofs.GenUtils.load_u32_le_eq_le b
+
+theorem translated_pad16 (n : Nat) : Gen.Utils.pad16 n = Model.Utils.pad16 n :=
+  Proofs.GenUtils.pad16_eq_model n
+
+/-- `Poly1305::new` as translated (clamping of `r`, zero accumulator, pad words) = the model, for every key -/
+theorem translated_poly1305_new (key : Bytes) :
+    Gen.Poly1305.new key = (let s := Model.Poly1305.new key
+       (s.r.l0, s.r.l1, s.r.l2, s.h.l0, s.h.l1, s.h.l2, s.pad0, s.pad1)) :=
+  Proofs.GenPoly1305.new_eq_model key
+
+/-- `Poly1305::blocks` as translated (the whole chunk loop, every limb operation and carry) = the model,
+for every `r`, accumulator, input and both values of `partial` -/
+theorem translated_poly1305_blocks (r h : Model.Poly1305.Limbs) (p0 p1 : Nat) (buf input : Bytes) (isPartial : Bool) :
+    Gen.Poly1305.blocks r.l0 r.l1 r.l2 h.l0 h.l1 h.l2 input isPartial =
+      (let s := Model.Poly1305.blocks ⟨r, h, p0, p1, buf⟩ input isPartial
+       (s.h.l0, s.h.l1, s.h.l2)) :=
+  Proofs.GenPoly1305.blocks_eq_model r h p0 p1 buf input isPartial
+
+/-- the arithmetic tail of `Poly1305::finalize` as translated = the model -/
+theorem translated_poly1305_finish (h : Model.Poly1305.Limbs) (pad0 pad1 : Nat) :
+    Model.Poly1305.finish h pad0 pad1 =
+      toLE 8 (Gen.Poly1305.finish h.l0 h.l1 h.l2 pad0 pad1).1
+        ++ toLE 8 (Gen.Poly1305.finish h.l0 h.l1 h.l2 pad0 pad1).2 :=
+  Proofs.GenPoly1305.finish_eq_model h pad0 pad1
+
+/-- hence the MAC assembled from the *translated* functions is RFC 8439 Poly1305 for every 32-byte key and message -/
+theorem translated_poly1305_mac_eq_spec (key msg : Bytes) (hk : key.length = 32) :
+    Proofs.GenPoly1305.macGen key msg = Spec.Poly1305.mac key msg := by
+  rw [← Proofs.GenPoly1305.mac_eq_gen]; exact Proofs.Poly1305.mac_model_eq_spec key msg hk
 
 end DryocVerif.Properties.C07
